@@ -22,7 +22,7 @@
    in-flight markers block unrelated creates), unconditional apply_converges (refuted: two databases that swapped
    collections are never applied). *)
 From SG Require Import Base.Prelude C15.ConfigProto C15.ProtoOwn C15.ProtoLocal C15.ProtoSeq C15.ProtoClean
-  C15.ProtoRace C15.ProtoRaceStep C15.ProtoRaceMain C15.ConfigApply C15.ApplyProofs C15.ProtoTerm.
+  C15.ProtoRace C15.ProtoRaceStep C15.ProtoRaceMain C15.ConfigApply C15.ApplyProofs C15.ProtoTerm C15.ProtoGen.
 Open Scope N_scope.
 
 (* registry_ownership -- ALL interleavings, crash points and timer expiries.  Own R: for any two distinct
@@ -308,3 +308,62 @@ Proof.
   cbv zeta. split; [vm_compute; reflexivity|]. split; [|vm_compute; reflexivity].
   unfold sequential. cbn. intros (_ & _ & H & _). lia.
 Qed.
+
+(* ================= every generation of the version id ================= *)
+(* getConfigVersionWithRetry compares the generations of the two version ids as NUMBERS: a config document behind the
+   requested version is never reported as newer (it is waited for, then fenced) -- for every pair of generations *)
+Theorem C15_behind_config_is_never_newer :
+  forall st nd c d want cas cf expired pick,
+    n_pc nd = PGdcRead c d want ->
+    aget (s_cfg st) d = Some (cas, cf) ->
+    gen (c_ver cf) < gen want ->
+    do_step st nd expired pick =
+      (st, if expired then set_pc nd (PRbTouch c d cas cf) else nd, false).
+Proof. exact behind_config_is_never_newer. Qed.
+Print Assumptions C15_behind_config_is_never_newer.
+
+Theorem C15_ahead_config_is_newer :
+  forall st nd c d want cas cf expired pick,
+    n_pc nd = PGdcRead c d want ->
+    aget (s_cfg st) d = Some (cas, cf) ->
+    is_invalid want = false ->
+    gen want < gen (c_ver cf) ->
+    do_step st nd expired pick = (st, finish nd (RErr ENewer), false).
+Proof. exact ahead_config_is_newer. Qed.
+Print Assumptions C15_ahead_config_is_newer.
+
+(* an update interrupted between the registry write and the config-document write is rolled back by any node that
+   read the registry, reads the document and gives up waiting while no other node takes a step: afterwards the
+   registry records exactly the previous version and collections without an in-flight marker, the document is the
+   previous configuration -- for ALL versions with gen vold < gen vnew *)
+Theorem C15_interrupted_update_rolled_back :
+  forall st nd c0 d c R vnew vold csn cso cas cf pick,
+    update_in_flight st d c R vnew vold csn cso cas cf ->
+    n_pc nd = PGdcRead c0 d vnew ->
+    n_reg nd = SN c R ->
+    let '(st3, nd3) := step3 st nd pick in
+    (exists c', c' <> 0 /\ s_reg st3 = Some (c', aset R d (RE (RV vold cso) None))) /\
+    (exists cas', aget (s_cfg st3) d = Some (cas', cf)) /\
+    (forall d', d' <> d -> aget (s_cfg st3) d' = aget (s_cfg st) d') /\
+    n_pc nd3 <> PDone (RErr ENewer) /\ n_pc nd3 <> PDone (RErr ECancelled) /\ n_pc nd3 <> PDone (RErr ERegMissing).
+Proof. exact interrupted_update_rolled_back. Qed.
+Print Assumptions C15_interrupted_update_rolled_back.
+
+Theorem C15_interrupted_update_rolled_back_every_generation :
+  forall g dig dig' st nd c0 d c R csn cso cas cf pick,
+    update_in_flight st d c R (g + 1, dig') (g, dig) csn cso cas cf ->
+    n_pc nd = PGdcRead c0 d (g + 1, dig') ->
+    n_reg nd = SN c R ->
+    let '(st3, nd3) := step3 st nd pick in
+    (exists c', c' <> 0 /\ s_reg st3 = Some (c', aset R d (RE (RV (g, dig) cso) None))) /\
+    (exists cas', aget (s_cfg st3) d = Some (cas', cf)) /\
+    n_pc nd3 <> PDone (RErr ENewer).
+Proof. exact interrupted_update_rolled_back_every_generation. Qed.
+Print Assumptions C15_interrupted_update_rolled_back_every_generation.
+
+(* non-vacuity: UpdateConfig of a database stored at generation 9 (99), crashed after its registry write, leaves
+   exactly [update_in_flight] with versions 10 / 9 (100 / 99) *)
+Example C15_generation_nonvacuous :
+  update_in_flight (w_st (gen_example 99)) 1 3 [(1, RE (RV (100, 6) [1]) (Some (RV (99, 161) [1; 2])))]
+                   (100, 6) (99, 161) [1] [1; 2] 1 (CF (99, 161) [1; 2]).
+Proof. exact update_in_flight_nonvacuous_99. Qed.
